@@ -725,3 +725,37 @@ def consumers(ctx) -> None:
                 ctx.ob("INTERACT-time", "optimiser matrix", e.loc(), ok,
                        "the qubit order is optimised for the matrix at the end of the sequence (SLM mask lifted)"
                        if ok else f"the qubit order is optimised for {show(a)[:80]}")
+
+
+def unique_observable_times(ctx) -> None:
+    """_unique_observable_times: per-observable times are used when given, the config's default times otherwise,
+    and the unsupported 'Full' default raises."""
+    prog = ctx.prog
+    f, paths = _run(ctx, PA + "_unique_observable_times", loop_iters=(1,))
+    own = dflt = full = 0
+    for p in paths:
+        own_none = None
+        for c, t in p.cond_log:
+            c0 = strip_typed(c)
+            if c0[0] == "cmp" and c0[1] == "is" and "evaluation_times" in show(c0[2]) and c0[3] == ("const", None):
+                own_none = t
+        r = p.frames[0].env.get("observable_times") if p.frames else None
+        if p.status == "raise":
+            full += 1
+            continue
+        s = show(r) if r is not None else ""
+        if own_none is False:
+            own += 1
+            ok = "set(elem(config.observables).evaluation_times)" in s
+            ctx.ob("GRID", "observable's own times", f.loc(), ok,
+                   "an observable's own evaluation_times are collected" if ok else f"own times path yields {s[:80]}")
+        elif own_none is True:
+            dflt += 1
+            ok = "default_evaluation_times" in s
+            ctx.ob("GRID", "default evaluation times", f.loc(), ok,
+                   "observables without own times contribute the config's default_evaluation_times" if ok else
+                   f"default-times path yields {s[:80]}")
+    ctx.ob("GRID", "unsupported default raises", f.loc(), full >= 1,
+           "a string-valued default_evaluation_times ('Full') raises" if full else
+           "the unsupported 'Full' default no longer raises")
+    ctx.require(own >= 1 and dflt >= 1, "_unique_observable_times: own/default paths not found")
